@@ -22,9 +22,16 @@ def main():
         b = C.Bounds(alphabet=bd.get('alphabet', 'ab'), maxlen=bd.get('maxlen', 3), ints=tuple(bd.get('ints', (-1, 0, 1, 2, 3))),
                      reals=tuple(bd.get('reals', (0.0, 0.5))), sizes=tuple(bd.get('sizes', (0, 1, 2))))
         b.per_name = bd.get('per_name', {})
-        rng = random.Random(req.get('seed', 0)) if req.get('random') else None
-        out = C.enumerate_cases(con, reg, b, limit=req.get('limit', 100000), clause_filter=filt, rng=rng,
-                                samples=req.get('random', 0))
+        out = None
+        if req.get('random'):
+            rng = random.Random(req.get('seed', 0))
+            out = C.enumerate_cases(con, reg, b, clause_filter=filt, rng=rng, samples=req.get('random', 0))
+        if out is None or not out['failures']:
+            out2 = C.enumerate_cases(con, reg, b, limit=req.get('limit', 100000), clause_filter=filt)
+            if out is not None:
+                for k in ('evaluations', 'in_domain', 'out_of_domain', 'distinct'):
+                    out2[k] += out[k]
+            out = out2
         out['bounds'] = b.describe()
     json.dump(out, sys.stdout, default=str)
 
